@@ -38,6 +38,7 @@ AS_VARIANTS = [
     {"zoo": "Z8", "pm": True},
     {"zoo": "Z9"},
     {"zoo": "Z9", "same_shape": True},
+    {"zoo": "Z9", "rotational": True},
     {"zoo": "Z10"},
     {"zoo": "Z11", "compressible": True},
     {"zoo": "Z11", "ground": True},
